@@ -488,6 +488,7 @@ func Run(c *vl.Ctx) {
 		// machine; its behaviour does not depend on the setting
 		os.Setenv("GOMAXPROCS", "1")
 		rn := run.New(c)
+		rn.Fast = os.Getenv("VERIF_NOFAST") == ""
 		rn.RunTimeout = 60 * time.Second
 		dbg("compiler and runtime built")
 		pool := fe.NewPool(c.W, filepath.Join(c.Repo, "ferret_libs"), 5)
